@@ -93,23 +93,39 @@ def check(ctx):
     # the result array: the name returned by the function
     rets = [n.value for n in own_nodes(fd.node) if isinstance(n, ast.Return)]
     res = norm(rets[0]) if len(rets) == 1 else "?"
-    stores = [n for n in own_nodes(fd.node) if isinstance(n, ast.Assign) and isinstance(n.targets[0], ast.Subscript)
-              and norm(n.targets[0].value) == res]
+    # the loop that fills the result, followed once for an edge with one and with two incident triangles (pvs/smallstep.py)
+    from ..smallstep import Machine, Opaque as SOpaque, render
+    loops = [n for n in own_nodes(fd.node) if isinstance(n, ast.For) and any(
+        isinstance(t, ast.Subscript) and isinstance(t.ctx, ast.Store) and norm(t.value) == res for t in ast.walk(n))]
+    if len(loops) != 1 or not (isinstance(loops[0].iter, ast.Call) and norm(loops[0].iter.func) == "enumerate"
+                               and isinstance(loops[0].target, ast.Tuple) and len(loops[0].target.elts) == 2
+                               and all(isinstance(x, ast.Name) for x in loops[0].target.elts)):
+        raise AnalysisError("get_dual_edge_lengths no longer fills its result in one `for i, edge in enumerate(edges)` loop: "
+                            "the rule for one / two incident triangles cannot be read off this code shape")
+    lp = loops[0]
+    ivar, evar = (x.id for x in lp.target.elts)
     by = {}
-    for s in stores:
-        gs = [(x, br) for x, br in guards_of(fd.node, s, pm) if isinstance(x, ast.If)]
-        if len(gs) != 1 or not isinstance(gs[0][0].test, ast.Compare) or not isinstance(gs[0][0].test.left, ast.Call):
-            continue
-        test = gs[0][0].test
-        lst = norm(test.left.args[0]) if test.left.args else "?"
-        idx = norm(s.targets[0].slice)
-        key = ("one" if (gs[0][1] == "true") == (rename_id(norm(test), lst, "L") == "len(L) == 1") else "two")
-        by[key] = rename_id(norm(s.value), lst, "L").replace(f"[{idx}]", "[i]").replace(" ", "")
-    if set(by) != {"one", "two"}:
-        raise AnalysisError("get_dual_edge_lengths no longer stores the dual length in two branches on the number of incident triangles: "
-                            f"the branch rule cannot be read off this code shape (found {sorted(by)})")
-    ok = by.get("one") == "np.linalg.norm(dual_sites[L[0]]-edge_centers[i])" and \
-        by.get("two") == "np.linalg.norm(dual_sites[L[0]]-dual_sites[L[1]])"
+    for count in (1, 2):
+        tris = [SOpaque(f"t{k}") for k in range(count)]
+
+        def attrs(text, tris=tris):
+            if "[frozenset(" in text:          # the triangles incident to this edge
+                return list(tris)
+            return NotImplemented
+        m = Machine({ivar: SOpaque("i"), evar: SOpaque("edge")}, attrs, lambda *a: NotImplemented, fuel=8)
+        m.run(lp.body)
+        st = [(b_, i_, v_) for b_, i_, v_ in m.stores if b_ == res]
+        desc = None
+        if len(st) == 1 and st[0][1] == SOpaque("i"):
+            v = st[0][2]
+            if isinstance(v, SOpaque) and v.parts and v.parts[0] == "call" and v.parts[1].endswith("linalg.norm") and len(v.parts[2]) == 1 \
+                    and not v.parts[3]:
+                d = v.parts[2][0]
+                if isinstance(d, SOpaque) and d.parts and d.parts[0] == "Sub":
+                    desc = "|" + " - ".join(sorted(render(x) for x in d.parts[1:])) + "|"
+            desc = desc or render(v)
+        by["one" if count == 1 else "two"] = desc or f"{len(st)} stores"
+    ok = by.get("one") == "|dual_sites[t0] - edge_centers[i]|" and by.get("two") == "|dual_sites[t0] - dual_sites[t1]|"
     ctx.ob("R07.3", "one incident triangle: |circumcentre - edge midpoint|; two: |circumcentre_0 - circumcentre_1|", ok, detail={str(k): v for k, v in by.items()},
            where=fd.fq, construct="dual length branches", loc=loc(fd, fd.node), message=f"dual length branches: {by}",
            consequence="dual edge lengths are not the Voronoi face lengths: the Laplacian weights are wrong")
@@ -151,30 +167,71 @@ def cell_area_signs(ctx):
     if len(rets) != 1 or not isinstance(rets[0], ast.Tuple):
         raise AnalysisError("compute_voronoi_polygon_areas no longer returns (areas, polygons)")
     res = norm(rets[0].elts[0])
-    stores = []
+    # backward slice from the stores into the cell-area array: every arithmetic contribution (through locals, tuple assignments and
+    # augmented assignments) is followed up to the call that produced it; a call is judged by its callee
+    def _elem(target, value, want):
+        """value expression assigned to the target element `want` of a (possibly tuple) assignment"""
+        if target is want:
+            return value
+        if isinstance(target, (ast.Tuple, ast.List)):
+            for i, x in enumerate(target.elts):
+                if x is want or any(y is want for y in ast.walk(x)):
+                    if isinstance(value, (ast.Tuple, ast.List)) and len(value.elts) == len(target.elts):
+                        return _elem(x, value.elts[i], want)
+                    return value
+        return value
+    stores = []           # (statement, contributed expression)
     for n in own_nodes(fn):
         if isinstance(n, ast.Assign):
             for t in n.targets:
-                ts = t.elts if isinstance(t, ast.Tuple) else [t]
-                for i, x in enumerate(ts):
-                    if isinstance(x, ast.Subscript) and norm(x.value) == res:
-                        stores.append((n, n.value))
+                for x in ast.walk(t):
+                    if isinstance(x, ast.Subscript) and norm(x.value) == res and isinstance(x.ctx, ast.Store):
+                        stores.append((n, _elem(t, n.value, x)))
         elif isinstance(n, ast.AugAssign) and isinstance(n.target, ast.Subscript) and norm(n.target.value) == res:
             stores.append((n, n.value))
-    if len(stores) < 3:
-        raise AnalysisError(f"expected >=3 stores into the cell-area array, found {len(stores)}")
+    if len(stores) < 2:
+        raise AnalysisError(f"expected >=2 stores into the cell-area array, found {len(stores)}")
+    defs = {}
+    for n in own_nodes(fn):
+        if isinstance(n, ast.Assign):
+            for t in n.targets:
+                for x in ast.walk(t):
+                    if isinstance(x, ast.Name) and isinstance(x.ctx, ast.Store):
+                        defs.setdefault(x.id, []).append((n, _elem(t, n.value, x)))
+        elif isinstance(n, ast.AugAssign) and isinstance(n.target, ast.Name):
+            defs.setdefault(n.target.id, []).append((n, n.value))
+    contributions = []    # (statement, call expression or leaf) reaching the area array arithmetically
+    seen_names = set()
+    todo = list(stores)
+    while todo:
+        st, e = todo.pop()
+
+        def visit(x, st=st):
+            if isinstance(x, ast.Call):
+                contributions.append((st, x))
+                return                          # what goes INTO a call is judged with the call
+            if isinstance(x, ast.Name) and isinstance(x.ctx, ast.Load):
+                if x.id not in seen_names:
+                    seen_names.add(x.id)
+                    todo.extend(defs.get(x.id, []))
+                return
+            if isinstance(x, ast.Subscript):
+                visit(x.value)                  # the index does not contribute a value
+                return
+            for c in ast.iter_child_nodes(x):
+                visit(c)
+        visit(e)
+    ctx.note("area_contributions", sorted({norm(c.func) for _, c in contributions}))
     bad = []
-    for st, val in stores:
-        e = expand(fn, val)
-        for c in ast.walk(e):
-            if isinstance(c, ast.Call):
-                nm = norm(c.func).split(".")[-1]
+    for st, c in contributions:
+        e = expand(fn, c)
+        for c2 in ast.walk(e):
+            if isinstance(c2, ast.Call):
+                nm = norm(c2.func).split(".")[-1]
                 if nm in signed or nm in ("det", "cross"):
-                    oriented = any(isinstance(a, ast.Call) and norm(a.func).endswith("orient_convex_polygon") for a in c.args)
-                    under_abs = False
-                    for w in ast.walk(e):
-                        if isinstance(w, ast.Call) and norm(w.func).split(".")[-1] in ("abs", "absolute", "fabs") and any(x is c for x in ast.walk(w)):
-                            under_abs = True
+                    oriented = any(isinstance(a_, ast.Call) and norm(a_.func).endswith("orient_convex_polygon") for a_ in c2.args)
+                    under_abs = any(isinstance(w, ast.Call) and norm(w.func).split(".")[-1] in ("abs", "absolute", "fabs")
+                                    and any(x is c2 for x in ast.walk(w)) for w in ast.walk(e))
                     if not oriented and not under_abs:
                         bad.append(f"L{st.lineno}: {norm(st)[:80]}")
     ctx.ob("R07.4", "only unsigned area primitives flow into the cell areas", not bad, detail={"stores": [norm(s_)[:70] for s_, _ in stores], "signed_flows": bad},
